@@ -222,3 +222,104 @@ func (p *Path) linDiffRange(a, b linForm) (*big.Int, *big.Int) {
 	}
 	return lo, hi
 }
+
+// narrow: a decided branch condition that is a signed comparison of linear forms differing in exactly one ranged
+// variable tightens that variable's range (the condition is part of the path condition from here on, so the
+// tighter range stays implied by it). Conjunctions taken as true narrow through every conjunct.
+func (p *Path) narrow(c *Term, outcome bool) {
+	switch c.Op {
+	case OBNot:
+		p.narrow(c.A[0], !outcome)
+		return
+	case OBAnd:
+		if outcome {
+			for _, x := range c.A {
+				p.narrow(x, true)
+			}
+		}
+		return
+	case OBOr:
+		if !outcome {
+			for _, x := range c.A {
+				p.narrow(x, false)
+			}
+		}
+		return
+	case OSle, OSlt:
+	default:
+		return
+	}
+	if _, ok := p.interval(c.A[0]); !ok {
+		return
+	}
+	if _, ok := p.interval(c.A[1]); !ok {
+		return
+	}
+	la, ok1 := p.linear(c.A[0])
+	lb, ok2 := p.linear(c.A[1])
+	if !ok1 || !ok2 {
+		return
+	}
+	// d = b - a = k*v + c0
+	ks := map[string]int64{}
+	for n, k := range lb.k {
+		ks[n] += k
+	}
+	for n, k := range la.k {
+		ks[n] -= k
+	}
+	var v string
+	var k int64
+	for n, x := range ks {
+		if x != 0 {
+			if v != "" {
+				return
+			}
+			v, k = n, x
+		}
+	}
+	if v == "" {
+		return
+	}
+	c0 := new(big.Int).Sub(lb.c, la.c)
+	// the fact established: a <= b (d >= 0), a < b (d >= 1), or their negations a > b (d <= -1), a >= b (d <= 0)
+	var lower bool // fact has the form d >= t (true) or d <= t (false)
+	var t int64
+	switch {
+	case c.Op == OSle && outcome:
+		lower, t = true, 0
+	case c.Op == OSlt && outcome:
+		lower, t = true, 1
+	case c.Op == OSle && !outcome:
+		lower, t = false, -1
+	default:
+		lower, t = false, 0
+	}
+	// k*v >= t - c0  or  k*v <= t - c0
+	rhs := new(big.Int).Sub(big.NewInt(t), c0)
+	if k < 0 {
+		k = -k
+		rhs.Neg(rhs)
+		lower = !lower
+	}
+	kk := big.NewInt(k)
+	r := p.ranges[v]
+	q, m := new(big.Int).DivMod(rhs, kk, new(big.Int)) // floor division (k > 0)
+	if lower {
+		// v >= ceil(rhs/k)
+		if m.Sign() != 0 {
+			q.Add(q, big.NewInt(1))
+		}
+		if q.IsInt64() && q.Int64() > r.lo {
+			r.lo = q.Int64()
+		}
+	} else {
+		// v <= floor(rhs/k)
+		if q.IsInt64() && q.Int64() < r.hi {
+			r.hi = q.Int64()
+		}
+	}
+	if r.lo <= r.hi {
+		p.ranges[v] = r
+	}
+}
